@@ -17,7 +17,10 @@ class TableGrammar(object):
     """binary / unary rule functions over Category objects backed by id tables; every result of
     one pair carries its own label and symbol (picklable: plain data + module-level class)"""
 
-    def __init__(self, cats, bin_table, un_table):
+    def __init__(self, cats, bin_table, un_table, plain_labels=False):
+        # plain_labels: the label of a result does not depend on its position in the list, so that a rule function
+        # may return the very same result twice (as a grammar with two routes to one analysis does)
+        self.plain_labels = plain_labels
         self.cats = cats
         self.bin = {k: list(v) for k, v in bin_table.items()}
         self.un = {k: list(v) for k, v in un_table.items()}
@@ -25,12 +28,14 @@ class TableGrammar(object):
 
     def binary(self, x, y):
         key = (self.ids.get(x), self.ids.get(y))
-        return [CombinatorResult(cat=self.cats[c], op_string=f'b{key[0]}_{key[1]}_{i}', op_symbol=f'<B{i}>', head_is_left=bool(h))
+        return [CombinatorResult(cat=self.cats[c], op_string=(f'b{key[0]}_{key[1]}' if self.plain_labels else f'b{key[0]}_{key[1]}_{i}'),
+                                 op_symbol=('<B>' if self.plain_labels else f'<B{i}>'), head_is_left=bool(h))
                 for i, (c, h) in enumerate(self.bin.get(key, []))]
 
     def unary(self, x):
         k = self.ids.get(x)
-        return [CombinatorResult(cat=self.cats[c], op_string=f'u{k}_{i}', op_symbol=f'<U{i}>', head_is_left=True)
+        return [CombinatorResult(cat=self.cats[c], op_string=(f'u{k}' if self.plain_labels else f'u{k}_{i}'),
+                                 op_symbol=('<U>' if self.plain_labels else f'<U{i}>'), head_is_left=True)
                 for i, c in enumerate(self.un.get(k, []))]
 
 
